@@ -210,6 +210,10 @@ class C19(Check):
                     # split by the class of the first character to spread the work
                     for first in ("align", "digit", "dot", "hash", "plus", "other"):
                         out.append({"part": "B", "style": style, "len": n, "first": first})
+        # (C) the same specifier used repeatedly while the terminal size changes, with a rejected one in between
+        for style in ("block", "kitty", "iterm2"):
+            for spec in ("", "<", "0", ".0", "#", "3.2", ".^", "|0._0#.5"):
+                out.append({"part": "C", "style": style, "spec": spec})
         return out
 
     def setup(self, shape, concrete):
@@ -273,6 +277,8 @@ class C19(Check):
             eng.reachable()
             eng.claim(f"symbolic regex matcher agrees with re (fullmatch/match/search, groups and spans) on all strings up to the stated length over a representative alphabet", n > 0)
             return
+        if shape["part"] == "C":
+            return self.part_c(eng, shape)
         common = self.common
         style = shape["style"]
         cls = self.classes[style]
@@ -327,6 +333,35 @@ class C19(Check):
         # formatting with the specifier == drawing with the equivalent explicit parameters
         fmt = cls._check_formatting(ref["h_align"] if ref["h_align"] is None else self.as_str(ref["h_align"]), ew, ref["v_align"] if ref["v_align"] is None else self.as_str(ref["v_align"]), eh if ref["height"] is not None else -2)
         eng.claim("format(spec) and draw(equivalent parameters) compute the same formatting", z3.And(same_value(fmt[0], h_align), same_value(fmt[2], v_align), term(fmt[1]) == term(width), term(fmt[3]) == term(height)))
+        eng.observe("fmt", (width, height))
+
+    def part_c(self, eng, shape):
+        """an accepted specifier means the same every time it is used: terminal-relative padding follows the terminal
+        size at the time of use, and a rejected specifier in between leaves no trace"""
+        common, cls, spec = self.common, self.classes[shape["style"]], shape["spec"]
+        ref = ref_parse(spec, shape["style"])
+        ew = ref["width"] if ref["width"] is not None else 0
+        eh = ref["height"] if ref["height"] is not None else 0
+        rel = 0 if ref["height"] is not None else -2
+        results = []
+        for k in range(3):
+            tw, th = eng.int(f"term_cols_{k}", 1), eng.int(f"term_lines_{k}", 1)
+            common.get_terminal_size = lambda tw=tw, th=th: TS((tw, th))
+            if k == 1:
+                for bad in ("x", "1.", "#zz", "+"):
+                    try:
+                        cls._check_format_spec(bad)
+                        eng.claim("a non-sentence is rejected", False)
+                    except ValueError:
+                        pass
+            h_align, width, v_align, height, alpha, style_args = cls._check_format_spec(spec)
+            W = core.sym_if(ew > 0, ew, core.sym_if(tw > 1, tw, 1))
+            H = core.sym_if(eh > 0, eh, core.sym_if(th + rel > 1, th + rel, 1))
+            eng.claim(f"use {k + 1}: padding size is the written value, else relative to the terminal size at the time of use", sym_and(width == W, height == H))
+            results.append((h_align, v_align, alpha, dict(style_args)))
+            style_args["caller_scribble"] = k  # what a caller does with its result must not leak into later uses
+        eng.reachable()
+        eng.claim("alignment, transparency and style arguments are the same on every use", all(r == results[0] for r in results[1:]))
         eng.observe("fmt", (width, height))
 
     @staticmethod
